@@ -491,7 +491,17 @@ fn rvalue_j<'tcx>(
         Rvalue::UnaryOp(op, a) => {
             J::Arr(vec![J::s("un"), J::s(format!("{:?}", op)), operand_j(cx, body, a)])
         }
-        Rvalue::Discriminant(p) => J::Arr(vec![J::s("disc"), place_j(cx, body, p)]),
+        Rvalue::Discriminant(p) => {
+            let pty = p.ty(&body.local_decls, tcx).ty;
+            let (adt_path, names) = match pty.kind() {
+                ty::Adt(adt, _) if adt.is_enum() => (
+                    J::s(path_of(tcx, adt.did())),
+                    J::Arr(adt.variants().iter().map(|v| J::s(v.name.as_str())).collect()),
+                ),
+                _ => (J::Null, J::Null),
+            };
+            J::Arr(vec![J::s("disc"), place_j(cx, body, p), adt_path, names])
+        }
         Rvalue::Aggregate(k, ops) => {
             let (kind, name, variant) = match &**k {
                 AggregateKind::Array(_) => ("array", String::new(), J::Null),
